@@ -1,13 +1,13 @@
 SPECIFICATION Spec
 CONSTANTS
   Impl = "fusebybn"
-  MaxNodes = 3
+  MaxNodes = 2
   Widths = {2}
   Dims = {2}
   C0 = 2
   Sp0 = 2
   Methods = {"PIT"}
-  Twos = {"no", "sep"}
+  Twos = {"no"}
   ConvVars = {"dflt"}
   BnVars = {"dflt"}
   SnoVars = {1}
